@@ -143,7 +143,7 @@ def gen_cell(rng, minor, used_ids, ctype=None):
         c = {'cell_type': ctype, 'metadata': gen_cell_metadata(rng, ctype),
              'source': text(rng, MD_LINES if ctype == 'markdown' else ['raw text', '\\latex{x}', '<html>'])}
         if rng.random() < 0.2:
-            c['attachments'] = {name: {'image/png': rng.choice(B64)} for name in rng.sample(['fig.png', 'a.png', 'b.gif'], rng.choice([1, 2]))}
+            c['attachments'] = {name: {rng.choice(['image/png', 'image/png', 'image/JPEG']): rng.choice(B64)} for name in rng.sample(['fig.png', 'a.png', 'b.gif'], rng.choice([1, 2]))}
     if minor >= 5:
         c['id'] = new_id(rng, used_ids)
     return c
@@ -245,7 +245,13 @@ def edit_cell(rng, c, what=None):
                 o['traceback'] = o['traceback'] + ['extra frame'] if rng.random() < 0.5 else o['traceback'][:-1] or ['tb']
             else:
                 r2 = rng.random()
-                if r2 < 0.4:
+                if r2 < 0.25:
+                    # change the value under an existing mime key (whatever its spelling)
+                    m = rng.choice(sorted(o['data'])) if o['data'] else None
+                    if m is not None:
+                        v = o['data'][m]
+                        o['data'][m] = (v + rng.choice(['x', '\nmore', 'AAAA'])) if isinstance(v, str) else {'changed': [1, 2]}
+                elif r2 < 0.4:
                     o['data'] = gen_mimebundle(rng)
                 elif r2 < 0.7:
                     o['metadata'] = rng.choice([{}, {'isolated': True}, {'needs_background': 'dark'}])
@@ -267,8 +273,13 @@ def edit_cell(rng, c, what=None):
             del at[rng.choice(sorted(at))]
             if not at:
                 at['z.png'] = {'image/png': rng.choice(B64)}
-        else:
+        elif r < 0.8:
             at[rng.choice(['fig.png', 'c.png'])] = {'image/png': rng.choice(B64)}
+        else:
+            # change an existing attachment in place, under a capitalised mime key as well
+            name = rng.choice(sorted(at))
+            at[name] = dict(at[name])
+            at[name][rng.choice(['image/png', 'image/JPEG'])] = rng.choice(B64)
     else:
         c['source'] = edit_text(rng, c['source'], CODE_LINES)
         k = 'source'
@@ -362,7 +373,7 @@ def similar_cell(rng, c, used):
     if 'id' in d:
         d['id'] = new_id(rng, used)
     lines = d['source'].splitlines(True)
-    if lines and rng.random() < 0.8:
+    if lines and rng.random() < 0.6:
         i = rng.randrange(len(lines))
         body = lines[i].rstrip('\r\n')
         lines[i] = body + rng.choice([' # tweak', ' ', 'x']) + lines[i][len(body):]
@@ -399,7 +410,8 @@ def triple_scenario(rng, minor=None, first=None):
             sc = first
         names.append(sc)
         n = min(len(l['cells']), len(r['cells']))
-        common = [i for i in range(n) if l['cells'][i].get('source') == r['cells'][i].get('source') and i < len(base['cells'])]
+        common = [i for i in range(min(n, len(base['cells']))) if l['cells'][i].get('source') == r['cells'][i].get('source') == base['cells'][i].get('source')
+                  and l['cells'][i]['cell_type'] == r['cells'][i]['cell_type'] == base['cells'][i]['cell_type']]
         if sc == 'concurrent-insert':
             p = rng.randrange(n + 1)
             xs = [long_cell(rng, minor, used) for _ in range(rng.choice([0, 0, 1, 2, 3]))]
@@ -534,7 +546,79 @@ _rot = [0]
 
 
 def any_triple(rng, minor=None, minor_change=False):
-    if rng.random() < 0.55:
+    if rng.random() < 0.7:
         _rot[0] += 1           # rotate through the scenarios so that every kind occurs in a short run
         return triple_scenario(rng, minor, first=SCENARIOS[_rot[0] % len(SCENARIOS)])
     return triple(rng, minor, minor_change)
+
+
+# ------------------------------------------------------------------ focused pairs for the differ
+FOCI = ['caps-mime-output', 'caps-mime-attachment', 'empty-data', 'json-mime-change', 'text-mime-lines', 'stream-seps', 'traceback', 'svg-change',
+        'output-metadata', 'custom-json-mime']
+
+
+def focused_pair(rng, focus=None):
+    """(a, b, [focus]): b differs from a in one aligned output / attachment, chosen to hit a specific differ branch"""
+    focus = focus or rng.choice(FOCI)
+    minor = rng.choice([4, 5])
+    used = set()
+    a = gen_notebook(rng, minor, ncells=0)
+    a['cells'] = [long_cell(rng, minor, used, 'code' if i == 0 else None) for i in range(rng.choice([1, 2, 3]))]
+    c = a['cells'][0]
+    ec = c['execution_count']
+    out = {'output_type': 'execute_result', 'data': {'text/plain': 'value'}, 'metadata': {}, 'execution_count': ec}
+    mk = None
+    if focus == 'caps-mime-output':
+        mk = rng.choice(['image/JPEG', 'text/LaTeX', 'Text/Plain', 'Application/JSON'])
+        out['data'][mk] = '{"k": [1]}' if mk == 'Application/JSON' else rng.choice(B64 if mk == 'image/JPEG' else ['x^2\ny', 'plain text'])
+    elif focus == 'empty-data':
+        out['data'] = {}
+    elif focus == 'json-mime-change':
+        out['data']['application/json'] = {'rows': [[1, 2], [3, 4]], 'n': 1}
+    elif focus == 'custom-json-mime':
+        out['data']['application/vnd.custom+json'] = {'v': [1, 2, 3]}
+    elif focus == 'text-mime-lines':
+        out['data']['text/html'] = '<table>\n<tr><td>1</td></tr>\n<tr><td>2</td></tr>\n</table>'
+    elif focus == 'svg-change':
+        out['data']['image/svg+xml'] = '<svg>\n<circle r="1"/>\n<rect/>\n</svg>'
+    elif focus == 'output-metadata':
+        out['metadata'] = {'image/png': {'width': 10}}
+    if focus == 'stream-seps':
+        out = {'output_type': 'stream', 'name': 'stdout', 'text': 'a\rb\r\nc\x0cd\ne'}
+    if focus == 'traceback':
+        out = {'output_type': 'error', 'ename': 'E', 'evalue': 'v', 'traceback': ['line one', 'line two', 'line three']}
+    c['outputs'] = [out] + c['outputs'][:1]
+    if focus == 'caps-mime-attachment':
+        md = long_cell(rng, minor, used, 'markdown')
+        md['attachments'] = {'fig.png': {'image/JPEG': B64[0], 'image/png': B64[1]}}
+        a['cells'].append(md)
+    b = copy.deepcopy(a)
+    bo = b['cells'][0]['outputs'][0]
+    if focus == 'caps-mime-output':
+        v = bo['data'][mk]
+        bo['data'][mk] = {'k': [1, 2]} if isinstance(v, dict) else (B64[2] if v in B64 else v + '\nmore')
+    elif focus == 'empty-data':
+        if rng.random() < 0.5:
+            bo['metadata'] = {'isolated': True}
+        else:
+            b['cells'][0]['source'] += '\n# touched'
+    elif focus == 'json-mime-change':
+        bo['data']['application/json']['rows'][1] = [3, 5]
+    elif focus == 'custom-json-mime':
+        bo['data']['application/vnd.custom+json'] = {'v': [1, 2, 4]}
+    elif focus == 'text-mime-lines':
+        bo['data']['text/html'] = bo['data']['text/html'].replace('<td>2</td>', '<td>22</td>')
+    elif focus == 'svg-change':
+        bo['data']['image/svg+xml'] = bo['data']['image/svg+xml'].replace('r="1"', 'r="2"')
+    elif focus == 'output-metadata':
+        bo['metadata'] = {'image/png': {'width': 20}}
+    elif focus == 'stream-seps':
+        bo['text'] = 'a\rB\r\nc\x0cd\ne\n'
+    elif focus == 'traceback':
+        bo['traceback'] = ['line one', 'line 2', 'line three', 'four']
+    elif focus == 'caps-mime-attachment':
+        b['cells'][-1]['attachments']['fig.png']['image/JPEG'] = B64[2]
+    for nb in (a, b):
+        errs = schema_errors(nb)
+        assert not errs, (errs, focus)
+    return a, b, ['focus:' + focus]
